@@ -95,6 +95,8 @@ fn main() {
                         (d.extra_del(a as usize, &vh::unhex(key)), -1)
                     }
                     "nop" => ("ok".to_string(), -1),
+                    // the same event submitted again with another signature (same id); to the specification a stuttering step
+                    "salt" => (d.store_alt(a as usize), -1),
                     "sleep" => {
                         // wall-clock time passes (a = milliseconds); to the specification this is a stuttering step
                         std::thread::sleep(std::time::Duration::from_millis(a.max(0) as u64));
